@@ -619,6 +619,10 @@ CO_ERR COCSdoRequestUpload(CO_CSDO *csdo,
         /* Requested SDO client is disabled */
         return CO_ERR_SDO_OFF;
     }
+    if ((csdo->Node->Nmt.Allowed & CO_SDO_ALLOWED) == 0) {
+        /* no SDO communication in the current NMT state */
+        return CO_ERR_SDO_OFF;
+    }
     if (csdo->State == CO_CSDO_STATE_BUSY) {
         /* Requested SDO client is busy */
         return CO_ERR_SDO_BUSY;
@@ -686,6 +690,10 @@ CO_ERR COCSdoRequestDownload(CO_CSDO *csdo,
     }
     if (csdo->State == CO_CSDO_STATE_INVALID) {
         /* Requested SDO client is disabled */
+        return CO_ERR_SDO_OFF;
+    }
+    if ((csdo->Node->Nmt.Allowed & CO_SDO_ALLOWED) == 0) {
+        /* no SDO communication in the current NMT state */
         return CO_ERR_SDO_OFF;
     }
     if (csdo->State == CO_CSDO_STATE_BUSY) {
